@@ -30,6 +30,8 @@ Pat == /\ l <= Len(Trace) /\ Trace[l].ev = "Pat" /\ l' = l + 1
                             THEN {<<l, "a string carrying a documented defect was accepted when listed next to valid entries">>} ELSE {})
                     \cup (IF \E i \in DOMAIN e.ctx : Judged(c) /\ ~Valid(c) /\ ~e.ctx[i].accepted /\ ~e.ctx[i].named
                             THEN {<<l, "rejected next to valid entries, but no UnacceptableOriginPatternError names the string">>} ELSE {})
+                    \cup (IF \E i \in DOMAIN e.ctx : MustSelfMatch(c) /\ e.ctx[i].accepted /\ ~e.ctx[i].self
+                            THEN {<<l, "an accepted wildcard-free pattern, listed next to other entries, does not allow itself as Origin">>} ELSE {})
                     \cup bad
           /\ stats' = [stats EXCEPT !.valid = @ + (IF Judged(c) /\ Valid(c) THEN 1 ELSE 0),
                                     !.invalid = @ + (IF Judged(c) /\ ~Valid(c) THEN 1 ELSE 0),
